@@ -1,6 +1,6 @@
 CONSTANTS
- MaxIn = 3
- MaxStart = 4
+ MaxIn = 2
+ MaxStart = 3
  MaxInit = 2
  Depth = 2
  Shapes = {4}
